@@ -225,4 +225,86 @@ theorem sum_int_overflow_is_error (e : Expr) (v : Value) (vs : List Value) (is :
         rw [h1]
         exact ih is hrange hov h
 
+/-! ### columns stay aligned -/
+
+theorem collect_length {α : Type} {l : List (Option α)} {r : List α} (h : collect l = some r) : r.length = l.length := by
+  induction l generalizing r with
+  | nil => simp [collect] at h; subst h; rfl
+  | cons x xs ih =>
+    cases x with
+    | none => simp [collect] at h
+    | some a =>
+      obtain ⟨r', hr', hr⟩ := collect_eq_some_cons h
+      subst hr
+      simp [ih hr']
+
+theorem firstRows_sub (rs : List (List Value)) : ∀ r ∈ firstRows rs, r ∈ rs := by
+  induction rs with
+  | nil => intro r h; simp [firstRows] at h
+  | cons x xs ih =>
+    intro r h
+    simp only [firstRows, List.mem_cons] at h
+    rcases h with h | h
+    · simp [h]
+    · exact List.mem_cons_of_mem _ (ih r (List.mem_filter.mp h).1)
+
+/-- every row of the specification's table has one cell per select-list item -/
+theorem table_rows_aligned {O : Oracles} {q : AggStmt} {envs : List Env} {t : List (List Value)}
+    (h : table O q envs = some t) : ∀ r ∈ t, r.length = q.items.length := by
+  cases hr : keyedRows O q envs with
+  | none => simp [table, hr] at h
+  | some rows =>
+    obtain ⟨htab, _⟩ := table_of_keyed hr h
+    rw [tableOfGroups_eq] at htab
+    cases hall : collect ((groups rows).map (perGroup O q)) with
+    | none => simp [hall] at htab
+    | some all =>
+      simp only [hall, Option.some.injEq] at htab
+      -- every kept row is the row of some group
+      have hkept : ∀ r ∈ keptRows all, r.length = q.items.length := by
+        intro r hrm
+        simp only [keptRows, List.mem_map, List.mem_filter] at hrm
+        obtain ⟨ra, ⟨hra, _⟩, hre⟩ := hrm
+        -- `ra` is the answer for one of the groups
+        have : ∀ (gs : List (List Value × List Env)) (all : List (List Value × Bool)),
+            collect (gs.map (perGroup O q)) = some all → ∀ ra ∈ all, ra.1.length = q.items.length := by
+          intro gs
+          induction gs with
+          | nil => intro all h ra hm; simp [collect] at h; subst h; simp at hm
+          | cons g gs ih =>
+            intro all h ra hm
+            simp only [List.map_cons] at h
+            cases hp : perGroup O q g with
+            | none => simp [hp, collect] at h
+            | some x =>
+              rw [hp] at h
+              obtain ⟨all', hall', he⟩ := collect_eq_some_cons h
+              subst he
+              rcases List.mem_cons.mp hm with hm | hm
+              · subst hm
+                simp only [perGroup] at hp
+                cases hrow : row O q g.1 g.2 with
+                | none => simp [hrow] at hp
+                | some r' =>
+                  simp only [hrow, Option.bind_some] at hp
+                  cases hacc : accept O q g.1 g.2 with
+                  | none => simp [hacc] at hp
+                  | some a =>
+                    simp only [hacc, Option.map_some, Option.some.injEq] at hp
+                    rw [← hp]
+                    have := collect_length hrow
+                    simpa using this
+              · exact ih all' hall' ra hm
+        rw [← hre]
+        exact this _ _ hall ra hra
+      intro r hrt
+      rw [← htab] at hrt
+      have hsub : r ∈ keptRows all := by
+        cases hl : q.limit <;> cases hd : q.distinct <;> simp only [hl, hd, Bool.false_eq_true, if_false, if_true] at hrt
+        · exact hrt
+        · exact firstRows_sub _ r hrt
+        · exact List.mem_of_mem_take hrt
+        · exact firstRows_sub _ r (List.mem_of_mem_take hrt)
+      exact hkept r hsub
+
 end Sqlgrep
